@@ -178,6 +178,15 @@ func FindConfig(path string) (*os.File, error) {
 // findUpwards searches for a file or directory matching the given name,
 // starting from the provided path and moving upwards.
 func findUpwards(path, name string, expectDir bool) (*os.File, error) {
+	// the directories above are found by cutting off path elements, which only works on an
+	// absolute path without "." and ".." elements
+	absPath, err := filepath.Abs(path)
+	if err != nil {
+		return nil, fmt.Errorf("failed to determine absolute path of %v: %w", path, err)
+	}
+
+	path = absPath
+
 	finfo, err := os.Stat(path)
 	if err != nil {
 		return nil, fmt.Errorf("failed to stat path %v: %w", path, err)
